@@ -586,7 +586,10 @@ def processAccepted (v : VSock) (c : Ctx) (msg : Msg) (previouslySeenRemoteFin :
   let (segs1, res) ← match v.segs.removeUpToAck v.pollNow hdr.ackNr hdr.sack with
     | none => throw ⟨(.panic "remove_up_to_ack underflow"), v, c⟩
     | some r => pure r
-  let v := { v with segs := segs1, ss := v.ss.onPayloadDelivered res.maxAckedPayloadSize }
+  -- whatever is acknowledged was sent: `last_sent_seq_nr` is never left below `snd_una - 1`
+  let lastAcked := wsub segs1.sndUna 1
+  let lss := if seqSub v.lastSentSeqNr lastAcked < 0 then lastAcked else v.lastSentSeqNr
+  let v := { v with segs := segs1, lastSentSeqNr := lss, ss := v.ss.onPayloadDelivered res.maxAckedPayloadSize }
   let c := { c with cc := c.cc.call s!"set_mss({v.ss.mss})" }
   let v := match v.recovery.isRecovering, res.newRtt with
     | false, some rtt => { v with rtte := v.rtte.sample rtt }
